@@ -86,12 +86,14 @@ class Seams:
         c.writes = []
         c.reads = []
         c.faults = {f["io_seq"]: f for f in faults if f["kind"] in ("open-fail", "read-fail", "write-torn")}
+        c.list_fault = next((f for f in faults if f["kind"] == "list-fail"), None)
 
     def end_op(self):
         c = self.ctx
         w, r = getattr(c, "writes", []), getattr(c, "reads", [])
         c.client = None
         c.faults = {}
+        c.list_fault = None
         return w, r
 
     def _who(self):
@@ -168,6 +170,14 @@ class Seams:
 
     # -- directory listing ---------------------------------------------------
     def _scandir(self, path=None):
+        lf = getattr(self.ctx, "list_fault", None)
+        if lf is not None and getattr(self.ctx, "client", None) is not None:
+            self.ctx.list_fault = None
+            relp = self.rel(path if path is not None else ".")
+            self.log("scandir", relp, "list-fail")
+            self.fault_fired.append(("list-fail", self.ctx.client, self.ctx.op, self.ctx.attempt, relp))
+            code = lf.get("errno", "EIO")
+            raise OSError(getattr(errno, code), os.strerror(getattr(errno, code)) + " (injected)", relp)
         it = _real_scandir(path) if path is not None else _real_scandir()
         entries = sorted(it, key=lambda e: e.name)
         it.close()
